@@ -13,6 +13,7 @@
 #include <core/core.h>
 #include <datatypes/array.h>
 #include <gvt/gvt.h>
+#include <verif/rsv.h>
 
 static __thread dyn_array(struct lp_msg *) free_list = {0};
 static __thread dyn_array(struct lp_msg *) at_gvt_list = {0};
@@ -59,6 +60,7 @@ struct lp_msg *msg_allocator_alloc(unsigned payload_size)
 		ret = array_pop(free_list);
 	}
 	ret->pl_size = payload_size;
+	RSV_EV(RSV_EV_MSG_ALLOC, ret, payload_size, 0, 0.0);
 	return ret;
 }
 
@@ -68,6 +70,7 @@ struct lp_msg *msg_allocator_alloc(unsigned payload_size)
  */
 void msg_allocator_free(struct lp_msg *msg)
 {
+	RSV_EV(RSV_EV_MSG_FREE, msg, 0, 0, 0.0);
 	if(likely(msg->pl_size <= MSG_PAYLOAD_BASE_SIZE))
 		array_push(free_list, msg);
 	else
@@ -80,6 +83,7 @@ void msg_allocator_free(struct lp_msg *msg)
  */
 void msg_allocator_free_at_gvt(struct lp_msg *msg)
 {
+	RSV_EV(RSV_EV_AT_GVT_FREE, msg, 0, 0, 0.0);
 	array_push(at_gvt_list, msg);
 }
 
